@@ -76,6 +76,12 @@ func init() {
 }
 
 var checks = map[string]*Check{
+	"C14": {ID: "C14", Parts: []Part{{Harness: "sio", Func: "C14sio"}}, Category: "model_checking", QuickDeadline: 240, ThoroughDeadline: 1500,
+		Engine: "E1+E2", DesignRef: "6/C14",
+		Technique: "exhaustive enumeration of crews x routing targets x emission scripts x message-history depth on the real crew hosts, under every machine-iteration order within a deviation bound (vrange), against a breadth-first reference router",
+		LevelText: "Every crew of 1-3 recorder machines, every routing target shape and every emission script up to the counter depth is processed by the real crew; per-machine receive logs, Result.Emitted and emission order are compared with a reference router, under every explored map-iteration order.",
+		LevelNote: "Trusted: the reference router (documented recipient rule per host) and the recorder script.",
+		Assumptions: commonAssumptions},
 	"C16": {ID: "C16", Parts: []Part{{Harness: "mcrew", Func: "C16", Race: true}}, Category: "model_checking", QuickDeadline: 240, ThoroughDeadline: 1500, GoMaxProcs: 1,
 		Engine: "E1+E2", DesignRef: "6/C16",
 		Technique: "exhaustive enumeration of operation/fault sequences on the real Service over a real bolt store with a memory==store oracle after every operation, plus stateless schedule exploration of concurrent clients with a brute-force linearizability oracle (all sequential orders, the service itself as reference)",
